@@ -201,7 +201,7 @@ def run_case(case):
                 elif name == "inverse":
                     if not b.invertible or b.inv_via_forward:
                         continue
-                    Yin = X if b.rng in ("same", "any") or b.dom == b.rng else None
+                    Yin = X if (b.rng in ("same", "any") or b.dom == b.rng) and list(b.out_shape) == list(b.in_shape) else None    # (squeeze changes the shape)
                     if Yin is None:
                         with torch.no_grad():
                             Yin = copy.deepcopy(obj)(X.detach(), C.detach() if C is not None else None)[0]
